@@ -123,6 +123,6 @@ theorem front_error_fails (front mir codegen : List D) (skip : Bool) (h : ∃ d 
 example : ((lex T [97, 45, 49, 32, 47, 47, 32, 116]).toks.map (·.kind)) = [.ident, .number, .comment, .eof] := by decide +kernel
 example : (lex T [35, 36]).errs = 2 := by decide +kernel        -- `#$`: two unrecognised bytes, two diagnostics
 example : (runPipeline [] [] [] false).artifact = true := by decide
-example : (runPipeline [⟨.warning, false, false, [], 0, 0, 0⟩] [] [⟨.error, false, false, [], 0, 0, 1⟩] false).artifact = false := by decide
+example : (runPipeline [⟨.warning, false, false, 0, 0, 0, 0⟩] [] [⟨.error, false, false, 0, 0, 0, 1⟩] false).artifact = false := by decide
 
 end FerretVerif.C13
